@@ -246,7 +246,7 @@ FinalBases(c) == [b \in 1..Len(classes[c].raw) |->
                     IF classes[c].inito[b] # NoObj THEN classes[c].inito[b]
                     ELSE LET r1 == FindObject(st, classes[c].initb[b], BO)
                              r2 == IF r1 # NoObj /\ Cls(st, r1) = "Class" /\ r1 # c THEN r1
-                                   ELSE ResolveName(st, st.objs[c].par, classes[c].raw[b], BO)
+                                   ELSE ResolveName(st, Outer(st, c), classes[c].raw[b], BO)
                          IN IF r2 # NoObj /\ Cls(st, r2) = "Class" /\ r2 # c THEN r2 ELSE NoObj]
 PostProcess == /\ phase = "process" /\ stack = <<>> /\ unproc = <<>> /\ ~st.crash
                /\ LET fb == [c \in DOMAIN classes |-> FinalBases(c)] IN
@@ -298,9 +298,10 @@ ValidEntries == IF Len(EntryOrders) = 1 THEN {1} ELSE {e \in 1..Len(EntryOrders)
 SiteObjs(i, pc) == {o \in 1..Len(st.objs) : st.objs[o].site = [m |-> i, pc |-> pc] /\ Registered(st, o)}
 ObjAt(i, pc) == LET c == SiteObjs(i, pc) IN IF c = {} THEN NoObj ELSE CHOOSE o \in c : \A o2 \in c : st.objs[o].name.d <= st.objs[o2].name.d
 SiteOfObj(o) == IF o = NoObj THEN <<>> ELSE <<st.objs[o].site.m, st.objs[o].site.pc>>
-Row(e, key, parts, v) == [e |-> e, scope |-> key, name |-> parts, py |-> <<v.i, v.pc>>,
+RowG(e, key, parts, v, g) == [e |-> e, scope |-> key, name |-> parts, py |-> <<v.i, v.pc>>, g |-> g,
                           res |-> IF ObjAt(key[1], key[2]) = NoObj THEN <<>>
                                   ELSE SiteOfObj(ResolveName(st, ObjAt(key[1], key[2]), parts, MO))]
+Row(e, key, parts, v) == RowG(e, key, parts, v, FALSE)       \* g: the name is a module global read from inside a class
 RowsOf(e, PB) == UNION {
    {Row(e, key, <<n>>, PB.ns[key][n]) : n \in DOMAIN PB.ns[key]}
    \cup UNION {{Row(e, key, <<n, a>>, PB.ns[ModKey(PB.ns[key][n].i)][a]) : a \in DOMAIN NsOf(PB, ModKey(PB.ns[key][n].i))}
@@ -314,6 +315,10 @@ RowsOf(e, PB) == UNION {
                          : a \in DOMAIN NsOf(PB, <<PyMro(PB, PB.ns[key][n], 8)[k].i, PyMro(PB, PB.ns[key][n], 8)[k].pc>>)}
                       : k \in {j \in 1..Len(PyMro(PB, PB.ns[key][n], 8)) : PyMro(PB, PB.ns[key][n], 8)[j].t = "obj"}}
                : n \in {x \in DOMAIN PB.ns[key] : IsClassVal(PB, PB.ns[key][x])}}
+   \* a bare name read inside a class (annotations, bases of nested classes, docstrings) that the class body does not bind is a
+   \* global of the module the class statement is WRITTEN in (Python never looks in enclosing classes, nor - for a class that a
+   \* re-export moved - in the module it is documented in now)
+   \cup (IF key[2] # 0 THEN {RowG(e, key, <<n>>, PB.ns[ModKey(key[1])][n], TRUE) : n \in DOMAIN NsOf(PB, ModKey(key[1])) \ DOMAIN PB.ns[key]} ELSE {})
    : key \in DOMAIN PB.ns}
 NameRows == UNION {RowsOf(e, PBs[e]) : e \in ValidEntries}
 \* a name resolves to what it denotes under SOME way of importing the project, or not at all
